@@ -70,9 +70,7 @@ func (x *Exec) step(st *State, ins ssa.Instruction) {
 	case *ssa.MakeChan:
 		id := st.freshID()
 		st.heapStore(id, "chan", tyBool, Scalar{TFalse, tyBool}) // closed flag
-		if sz, ok := i.Size.(*ssa.Const); ok && sz.Value != nil {
-			st.heapStore(id, "chancap", tyInt, Scalar{st.A.Const(constToBig(sz.Value), tyInt), tyInt})
-		}
+		st.heapStore(id, "chancap", tyInt, x.coerce(st, x.val(st, i.Size), tyInt))
 		x.setReg(st, i, Scalar{id, i.Type()})
 	case *ssa.MapUpdate:
 		x.doMapUpdate(st, i)
@@ -613,7 +611,18 @@ func (x *Exec) mapKeys(st *State, mt *types.Map) (pkey string, ksort string) {
 func (x *Exec) mapKeyTerm(st *State, v Value, kt types.Type) *Term {
 	if isStringType(kt) {
 		sv := v.(StringV)
-		// strings as keys: abstract by an uninterpreted content hash that is injective on equal strings
+		// string literals: one distinct key per distinct literal text (distinct texts are distinct keys)
+		if id, ok := iconst(sv.Arr); ok && id.Sign() < 0 {
+			if off, ok := iconst(st.idxToInt(sv.Off)); ok && off.Sign() == 0 {
+				if lit, isLit := x.strByID[id.Int64()]; isLit && func() bool {
+					n, ok := iconst(st.idxToInt(sv.Len))
+					return ok && n.Int64() == int64(len(lit))
+				}() {
+					return IntBig(new(big.Int).Sub(id, big.NewInt(1<<50)))
+				}
+			}
+		}
+		// other strings as keys: abstract by an uninterpreted content hash
 		return App("strkey", SInt, sv.Arr, st.idxToInt(sv.Off), st.idxToInt(sv.Len))
 	}
 	return st.scalarTerm(v, kt)
